@@ -134,6 +134,18 @@ theorem tables_cover_entry_points :
     Gen.selectorPrograms.any (fun p => p.contains .swapSel) = true ∧
     Gen.selectorPrograms.any (fun p => (p.filter (· == .select)).length = 2) = true := by decide
 
+/-- the two mutexes are never requested in both orders (and none while it is itself held): over every path
+through every entry point, with the operations on both locks in one program.  A static lock-order fact
+that complements the per-lock theorems below (the model has one lock at a time). -/
+theorem lock_order_acyclic :
+    orderAcyclic (Gen.lockOrderPaths.flatMap fun p => nestings p.2) = true := by decide
+
+-- `nestings` sees a lock taken inside another one, and `orderAcyclic` rejects the two orders together
+example : nestings [(0, .rlock), (1, .lock), (1, .unlock), (0, .runlock)] = [(0, 1)] := by decide
+example : orderAcyclic (nestings [(0, .rlock), (1, .lock), (1, .unlock), (0, .runlock)] ++
+    nestings [(1, .lock), (0, .rlock), (0, .runlock), (1, .unlock)]) = false := by decide
+example : orderAcyclic (nestings [(0, .rlock), (0, .rlock), (0, .runlock), (0, .runlock)]) = false := by decide
+
 /-- **C13 for the extracted programs.** Any number of goroutines, each following any path through any
 entry point that touches the selector lock (requests of every kind, reloads): every reachable state is
 finished or can step, every run can be completed, no run is longer than the initial measure, and every
